@@ -78,16 +78,17 @@ def newOp (j : J) (k : Kind) : Op :=
   { kind := k, tsub := j.now, tmo := j.tmo, absExp := j.absExp, aborts := j.openCodes,
     userTimeout := j.openCodes.contains ETIMEDOUT }
 
-theorem jstep_subCall (k : Kind) : AioSpec.step j (.subCall k) = { j with ops := newOp j k :: j.ops } := by
-  simp [AioSpec.step.eq_def, h1, h2, newOp]
+theorem jstep_subCall (k : Kind) : AioSpec.step j (.subCall k) =
+    { j with ops := newOp j k :: j.ops, absExp := if isDirect k = true then none else j.absExp } := by
+  cases k <;> simp [AioSpec.step.eq_def, h1, h2, newOp, isDirect]
 
 /-- what a return of the start call records in the newest operation -/
-def fRet (v : Nat) (sc sr : Bool) (o : Op) : Op :=
-  { o with ret := some v, retBeforeStop := !sc,
+def fRet (v : Nat) (tr : Nat) (sc sr : Bool) (o : Op) : Op :=
+  { o with ret := some v, tret := tr, retBeforeStop := !sc,
            decided := if v = 0 ∧ sr = true ∧ o.kind = Kind.gen ∧ o.decided = none then some ESTOPPED else o.decided }
 
 theorem jstep_subRet_other (v : Nat) (o : Op) (ho : j.ops.head? = some o) (hk : isDirect o.kind = false) :
-    AioSpec.step j (.subRet v) = { j with ops := updNewest j.ops (fRet v j.stopCalled j.stopReturned) } := by
+    AioSpec.step j (.subRet v) = { j with ops := updNewest j.ops (fRet v j.now j.stopCalled j.stopReturned) } := by
   cases hj : j.ops with
   | nil => simp [hj] at ho
   | cons o' r =>
@@ -97,7 +98,7 @@ theorem jstep_subRet_other (v : Nat) (o : Op) (ho : j.ops.head? = some o) (hk : 
 
 theorem jstep_subRet_direct (v : Nat) (o : Op) (ho : j.ops.head? = some o) (hk : isDirect o.kind = true) (hv : v ≠ 1) :
     AioSpec.step j (.subRet v) =
-      { j with ops := updNewest j.ops (fRet v j.stopCalled j.stopReturned), skipArmed := false } := by
+      { j with ops := updNewest j.ops (fRet v j.now j.stopCalled j.stopReturned), skipArmed := false } := by
   cases hj : j.ops with
   | nil => simp [hj] at ho
   | cons o' r =>
@@ -108,14 +109,14 @@ theorem jstep_subRet_direct (v : Nat) (o : Op) (ho : j.ops.head? = some o) (hk :
 theorem jstep_subRet_skip (o : Op) (ho : j.ops.head? = some o) (hk : isDirect o.kind = true)
     (hr : j.reports + 1 = j.ops.length) :
     AioSpec.step j (.subRet 1) =
-      { j with ops := updNewest j.ops (fun o => { fRet 1 j.stopCalled j.stopReturned o with reported := true }),
+      { j with ops := updNewest j.ops (fun o => { fRet 1 j.now j.stopCalled j.stopReturned o with reported := true }),
                reports := j.reports + 1, skipArmed := false, lastCb := none } := by
   cases hj : j.ops with
   | nil => simp [hj] at ho
   | cons o' r =>
     simp only [hj, List.head?_cons, Option.some.injEq] at ho
     subst ho
-    have hm := markReported_newest (updNewest j.ops (fRet 1 j.stopCalled j.stopReturned)) j.reports (by simp [hr])
+    have hm := markReported_newest (updNewest j.ops (fRet 1 j.now j.stopCalled j.stopReturned)) j.reports (by simp [hr])
     rw [hj] at hm hr
     cases hk' : o'.kind <;> simp_all [AioSpec.step.eq_def, updNewest, fRet, isDirect, and_assoc]
 
@@ -123,8 +124,10 @@ theorem jstep_lost (rv : Nat) : AioSpec.step j (.provDone rv false) = j ∧ AioS
   simp [AioSpec.step.eq_def, h1, h2]
 
 theorem jstep_won (rv : Nat) (o : Op) (ho : j.ops.head? = some o) (hd : o.decided = none) (hr : o.reported = false) :
-    AioSpec.step j (.provDone rv true) = { j with ops := updNewest j.ops fun o => { o with decided := some rv } } ∧
-    AioSpec.step j (.cancelRan rv true) = { j with ops := updNewest j.ops fun o => { o with decided := some rv } } := by
+    AioSpec.step j (.provDone rv true) =
+      { j with ops := updNewest j.ops (fun o => { o with decided := some rv }), absExp := none } ∧
+    AioSpec.step j (.cancelRan rv true) =
+      { j with ops := updNewest j.ops (fun o => { o with decided := some rv }), absExp := none } := by
   cases hj : j.ops with
   | nil => simp [hj] at ho
   | cons o' r =>
